@@ -89,6 +89,7 @@ fn main() {
             ("C11", "preempt") => preempt_family::worker("C11", start, end, step, arg),
             ("C11", _) => c11::worker(fam, start, end, step, arg),
             ("C01", _) => c01::worker(fam, start, end, step, arg),
+            ("C13", _) => c13::worker(fam, start, end, step, arg),
             ("C05", _) => c05::worker(fam, start, end, step, arg),
             ("C10", _) => c10::worker(fam, start, end, step, arg),
             _ => panic!("unknown worker"),
@@ -128,8 +129,11 @@ fn main() {
         let id = v["property"].as_str().expect("replay file has no property");
         let (_, rp) = registry(id).expect("unknown property");
         quiet_panics();
-        let vs = rp(&v["case"]);
         let want = v["rule"].as_str().unwrap_or("");
+        if id != "C16" && (want.contains("abort") || want.contains("hang")) {
+            iso::replay_guard(id, &args[2], 8 << 30, 120_000);
+        }
+        let vs = rp(&v["case"]);
         if let Some(x) = vs.iter().find(|x| x.rule == want).or(vs.first()) {
             println!("VIOLATION property={} replay={}", id, args[2]);
             println!("  rule={} {}", x.rule, x.what);
@@ -162,7 +166,22 @@ fn main() {
         "C02" | "C04" | "C17" | "C05" | "C10" | "C19" => ctx.with_budget(75, 1800),
         _ => ctx,
     };
-    let rep = run(&ctx);
-    let code = finish(&ctx, rep, &|c| rp(c));
-    std::process::exit(code);
+    // cap the address space of the check process itself: a subject that tries to allocate without bound
+    // must fail its allocation (abort = machinery exit, not a verdict) instead of exhausting the machine
+    unsafe {
+        let lim = libc::rlimit { rlim_cur: 40 << 30, rlim_max: 40 << 30 };
+        libc::setrlimit(libc::RLIMIT_AS, &lim);
+    }
+    // a panic of the harness itself is a machinery error (exit 2), never a verdict and never silent
+    let r = std::panic::catch_unwind(std::panic::AssertUnwindSafe(|| {
+        let rep = run(&ctx);
+        finish(&ctx, rep, &|c| rp(c))
+    }));
+    match r {
+        Ok(code) => std::process::exit(code),
+        Err(e) => {
+            println!("MACHINERY-ERROR: harness panic: {} [{}]", common::panic_message(e), common::last_panic());
+            std::process::exit(2);
+        }
+    }
 }
